@@ -136,7 +136,8 @@ def gen_cases(rng, tier):
     SHAPES = ["{|a, b| (1, 2), (3)}", "{|a, b| (1)}", "{|a, b| (1, 2, 3), (4, 5)}", "{|a, b| (1, 2), (3, 4, 5)}", "{|a| (1), ()}", "{|a, b| }", "{|| (1)}", "{|a, a| (1, 2)}",
               "{|a, b| (1, 2), (3), (4, 5)}", "{|@, @value| (1, 2), (1)}", "{|@, @item| (0, 1), (1)}", "{1: 2, 1: 3}", "{(a: 1): 2, (a: 1): 3}", "(a: 1, a: 2)", "[1, , ]", "[, ]", "<<>>", "<<256>>", "<<-1>>",
               "<<1.5>>", "<<\"a\", {}>>", "$\"${1:d}\"", "$\"${[1,2]::, }\"", "$\"${[1,2]:02d:,}\"", "$\"${1:q}\"", "$\"${}\"", "$\"${1::}\"", "$\"${{}::x:y}\"", "$\"${\"a\":5.5s}\"",
-              "(1\\2\\[3])", "(0.5\\[1])", "(\"a\"\\[1])", "%1", "1 -> \\[x, x] x", "let [] = 1; 2", "let () = []; 2", "cond {}", "cond 1 {}", "\\x \\x x"]
+              "(1\\2\\[3])", "(0.5\\[1])", "(\"a\"\\[1])", "%1", "1 -> \\[x, x] x", "let [] = 1; 2", "let () = []; 2", "cond {}", "cond 1 {}", "\\x \\x x",
+              "(\\x [x]) = (\\x [x])", "let f = \\x [x]; f = f", "({(\\x [x])} with (\\x [x])) count", "{(\\x [x]), (\\x [x, 1])} count", "(\\x {x: [x]}) = (\\x {x: [x]})"]
     for sh in SHAPES:
         add("shape", sh)
     NONASCII = ["\"\u00e9\u00e9b\"", "\"b\u00e9\"", "\"\U0001F600x\"", "\"\"", "\"abc\"", "(2\\\"ab\")", "(\"abc\" without (@: 1, @char: 98))"]
